@@ -354,7 +354,18 @@ def register_inputs(w):
             # the graph input declares the NCHW-permuted shape, is named in_<i>_nchw
             ("input_declares_nchw_permuted_shape", permuted_shape_ok(ex, c["var"].term, new_in, NHWC_TO_NCHW)),
             ("input_named_in_i_nchw", z3.And(z3.Not(sel(name_arr[0], new_in)), sel(name_arr[1], new_in) == want_name)),
+            # a layout flag changes the layout only: the element type follows the same policy as a plain input
+            ("input_element_type_follows_the_dtype_policy", input_dtype_ok(ex, c["var"].term, new_in, ex.read_field(c["self"], "enable_double_precision").term)),
         ]
+
+    def input_dtype_ok(ex, var_term, value_term, dbl):
+        from contracts import c09  # noqa: F401
+        aval = sel(ex.heap_arrays(JVAR, "aval")[0], var_term)
+        code = sel(ex.heap_arrays(AVAL, "dtype")[0], aval)
+        ty = sel(ex.heap_arrays(VALUE, "type")[0], value_term)
+        r = sel(ex.heap_arrays(TT, "dtype")[0], ty)
+        return z3.And(ty != null_of(TT), w.dtype_policy_relation(code, dbl, r))
+    w.c05_input_dtype_ok = input_dtype_ok
 
     def req_aval(c: Ctx):
         return sel(c.ex.heap_arrays(JVAR, "aval")[0], c["var"].term) != null_of(AVAL)
@@ -408,6 +419,10 @@ def register_inputs2(w):
             ("var_bound_to_the_input_itself", z3.And(sel(sel(m[0], b), c["var"].term), sel(sel(m[1], b), c["var"].term) == new_in, c.result.term == new_in)),
             ("input_named_in_i", z3.And(z3.Not(sel(name_arr[0], new_in)), sel(name_arr[1], new_in) == z3.Concat(z3.StringVal("in_"), int_str(c["index"].term)))),
             ("input_declares_the_jax_shape", w.shape_corresponds(ex, dims, new_in)),
+            # (function bodies may keep float32 on request: the model interface is the top graph, not function mode)
+            ("input_element_type_follows_the_dtype_policy", z3.Implies(
+                z3.Not(z3.And(ex.truthy(ex.read_field(c["self"], "_function_mode")), ex.truthy(ex.read_field(c["self"], "_keep_function_float32")))),
+                w.c05_input_dtype_ok(ex, c["var"].term, new_in, sel(ex.heap_arrays(BLD, "enable_double_precision")[0], b)))),
         ]
 
     w.add_contract(Contract(
